@@ -16,12 +16,23 @@ CFG = {
             "headers followed by a complete and by a truncated remainder under random segmentation, reads that "
             "return 0. Claimed payload lengths are capped at 16 MiB in this generator; headers claiming up to 2^64-1 bytes "
             "(the allocation defect repaired by aa4c57e) are C03's cases, run in a worker process. opc: Opcode::try_from on all 256 "
-            "values. msg: Message::new/new_binary(..).to_frame(). Non-trivial = every enc/rt/trunc/msg case and every "
+            "values. msg: Message::new/new_binary(..).to_frame() for payload lengths {0,1,2,3,124..128,200,4096,65534..65537} "
+            "(ASCII, multi-byte, random, ASCII ending in 0xff); msg rx.<opcode>.<sizes>: to_frame() of a message RECEIVED by "
+            "WebsocketStream::recv over a scripted socket from masked client frames written by the harness's own encoder "
+            "(the only way to obtain a message whose text flag is set although the payload is not UTF-8), observed as "
+            "is_text(), text().is_some() and the bytes of to_frame(): received as text and as binary, payload lengths the "
+            "same plus {4,6,7,10,100,255,256,257,1000,1024} (thorough: also 4095, 4097, 8192 ... 262144, 1 MiB; quick leaves out "
+            "65537), payloads ASCII / whole multi-byte characters / the same character stream cut at the length / "
+            "random bytes / ASCII with one Latin-1 letter / whole characters with a lead byte at the end, in one frame and "
+            "fragmented (after the first byte, in the middle, before the last byte, into three, with an empty fragment; "
+            "above 300 bytes: whole, after the first byte, in the middle). Non-trivial = every enc/rt/trunc/msg case and every "
             "dec case with a valid opcode; distinct = distinct case line (hash set).",
     "exhaustive": True,
     "violation_text": "frame encoder/decoder output differs from what RFC 6455 section 5.2/5.3 (Spec/WsFrame.lean) "
                       "demands for this input: layout of the encoded frame, frame returned by decoding an encoded "
-                      "frame under the given split, ReadError on a truncated frame, InvalidOpcode on a reserved opcode",
+                      "frame under the given split, ReadError on a truncated frame, InvalidOpcode on a reserved opcode, "
+                      "Message::to_frame of a built or received message = one unmasked FIN frame whose opcode is the message's "
+                      "type (its text flag), whatever the payload bytes are",
     "trusted_base": ["Spec/WsFrame.lean: rfc6455Layout (octets of RFC 6455 section 5.2, masking of section 5.3)",
                      "harness Script reader = model readExact (read returns at most the next chunk; 0 = end of stream)",
                      "Rust std::str::from_utf8 / Lean String.fromUTF8? agree (driver only, Message::new text flag)"],
